@@ -137,30 +137,39 @@ def evaluate(case):
     world = exact.make_world(case)
     samplers = _samplers(world, case)
     classes = ["kind:%s" % kind, "n=%d" % n, "out" if out else "noout"]
+    rc = exact.ResampleMonitor()
     try:
-        if kind == "subtree-inner":
-            comp = "subtree-inner/%s" % case["proposal"]
-            leaves, nontriv = _inner(world, samplers["sub"], case, comp, tags, budget_)
-            return Outcome(nontrivial=nontriv, classes=tuple(classes + ["prop:" + case["proposal"]]), info=dict(case=case, leaves=leaves), weight=leaves)
-        keys, mts, trees = exact.state_space(world, n, out, sib=case.get("sib"))
-        pi, lp = exact.target(world, trees)
-        rng = world["rng"]
-        if kind in ("dp", "prg"):
-            comp = "%s/%s" % (kind, "outliers" if out else "no-outliers")
-            K, leaves = exact.transition_matrix(samplers[kind].sample_tree, keys, trees, rng, comp, tags, budget_)
-            resid = exact.check_invariance(pi, K, keys, mts, comp, tags, TOL)
-        elif kind == "subtree-full":
-            comp = "subtree-full/%s" % case["proposal"]
-            classes.append("prop:" + case["proposal"])
-            K, leaves = exact.transition_matrix(samplers["sub"].sample_tree, keys, trees, rng, comp, tags, budget_)
-            resid = exact.check_invariance(pi, K, keys, mts, comp, tags, TOL)
-        elif kind == "sweep":
-            comp = "sweep"
-            K, leaves, resid = _sweep(world, samplers, case, keys, mts, trees, tags, budget_)
-        else:
-            raise HarnessError("unknown kind %r" % kind)
+        with rc:
+            if kind == "subtree-inner":
+                comp = "subtree-inner/%s" % case["proposal"]
+                leaves, nontriv = _inner(world, samplers["sub"], case, comp, tags, budget_)
+                rc.check()
+                return Outcome(nontrivial=nontriv, classes=tuple(classes + ["prop:" + case["proposal"]]), info=dict(case=case, leaves=leaves), weight=leaves)
+            keys, mts, trees = exact.state_space(world, n, out, sib=case.get("sib"))
+            pi, lp = exact.target(world, trees)
+            rng = world["rng"]
+            if kind in ("dp", "prg"):
+                comp = "%s/%s" % (kind, "outliers" if out else "no-outliers")
+                K, leaves = exact.transition_matrix(samplers[kind].sample_tree, keys, trees, rng, comp, tags, budget_)
+                resid = exact.check_invariance(pi, K, keys, mts, comp, tags, TOL)
+            elif kind == "subtree-full":
+                comp = "subtree-full/%s" % case["proposal"]
+                classes.append("prop:" + case["proposal"])
+                K, leaves = exact.transition_matrix(samplers["sub"].sample_tree, keys, trees, rng, comp, tags, budget_)
+                rc.check()
+                resid = exact.check_invariance(pi, K, keys, mts, comp, tags, TOL)
+            elif kind == "sweep":
+                comp = "sweep"
+                K, leaves, resid = _sweep(world, samplers, case, keys, mts, trees, tags, budget_)
+            else:
+                raise HarnessError("unknown kind %r" % kind)
+        rc.check()
     except exact.Inconclusive as e:
         return Outcome(nontrivial=False, classes=("inconclusive:%s" % e,), weight=0)
+    except Violation as v:
+        if len(rc.tie_decisions) > 1 and v.tags.get("exc_type") is None:
+            return Outcome(nontrivial=False, classes=("inconclusive:ess-threshold-tie",), weight=0)
+        raise
     return Outcome(nontrivial=_reach(K), classes=tuple(classes), info=dict(case=case, states=len(keys), leaves=leaves, residual=resid), weight=leaves)
 
 
